@@ -191,6 +191,23 @@ theorem fetch_correct (c : Cache) (db : Db) (o : OutPoint) (h : CInv c db) :
     (fetch c db o).1.get o = some (fetch c db o).2 ∧ rval (fetch c db o).2 = abs c db o :=
   fetch_spec c db o h
 
+/-- Any number of reads, in any order and multiplicity (this is all that concurrent
+`FetchUtxoEntry` / `FetchUtxoView` callers and rejected blocks do to the cache), keeps the
+invariant and changes nothing that is reported. -/
+theorem reads_preserve (c : Cache) (db : Db) (os : List OutPoint) (h : CInv c db) :
+    CInv (fetchMany c db os) db ∧ ∀ p, abs (fetchMany c db os) db p = abs c db p :=
+  fetchMany_spec db os c h
+
+/-- `FetchUtxoView`: after loading outpoints `os` into a fresh view through the cache, every
+requested outpoint is a key of the view whose cloned slot shows exactly the reported value
+(nil or spent = absent), the cache invariant holds and the reported set is unchanged. -/
+theorem fetchUtxoView_correct (c : Cache) (db : Db) (os : List OutPoint) (h : CInv c db) :
+    CInv (viewFetch c db os emptyView).1 db ∧
+    abs (viewFetch c db os emptyView).1 db = abs c db ∧
+    ∀ o ∈ os, ∃ slot, (viewFetch c db os emptyView).2.get o = some slot ∧ rval slot = abs c db o := by
+  have h1 := viewFetch_spec (S := fun _ => False) db os c emptyView h (vjunk_of_vagree (vagree_empty _))
+  exact ⟨h1.1, h1.2.1, fun o ho => ((viewFetch_get db os c emptyView h o).1 ho)⟩
+
 /-- The fixed `addTxOut`. The extra hypothesis the proof needs is exactly the "no cache entry
 at all" case: then the database must not hold the outpoint (which BIP30 - the outpoint is not
 currently unspent - provides, see `addTxOut_correct_bip30`). With any cache entry present (nil,
